@@ -20,7 +20,7 @@ func init() {
 		Rule: "a dedicated race-detector suite (GORACE halt_on_error=0, reports counted in the log files, de-duplicated by stack pair with line numbers stripped, attributed by the innermost non-runtime/non-stdlib frame of either access): " +
 			"S1 pipelined concurrent handlers writing on one connection (plain/TLS/StartTLS, back-pressure); S2 parallel StartTLS upgrades with traffic before and after; S3 Run/Ready/Stop racing connect storms; " +
 			"S4 connection teardown of every kind with handlers in flight; S5 the test directory served by 8 clients doing bind/search/add/modify/delete while the harness calls SetUsers/SetGroups/SetControls/SetTokenGroups/" +
-			"SetAllowAnonymousBind and the getters; S6 the same without Set*; S7 StartTLS upgrades followed by Stop with no traffic over the upgraded session; S8 a request pipelined ahead of StartTLS whose slow handler answers after the upgrade; S9 fresh servers whose very first requests are unrouted and arrive concurrently (one segment, several connections); S10 handlers that answer one request from several goroutines through their one ResponseWriter; S11 connections older than the server's write timeout that keep sending requests one by one while every response write fails. Every third repetition of every scenario runs with Debug-level server loggers. Routes are registered before Run. Each scenario is repeated; a self-test race in harness code proves the detector is live. " +
+			"SetAllowAnonymousBind and the getters; S6 the same without Set*; S7 StartTLS upgrades of 2..4 connections with one shared *tls.Config (in every other round one that spells out TLS 1.0/1.1 as its minimum version) followed by Stop with no traffic over the upgraded session; S8 a request pipelined ahead of StartTLS whose slow handler answers after the upgrade; S9 fresh servers whose very first requests are unrouted and arrive concurrently (one segment, several connections); S10 handlers that answer one request from several goroutines through their one ResponseWriter; S11 connections older than the server's write timeout that keep sending requests one by one while every response write fails. Every third repetition of every scenario runs with Debug-level server loggers. Routes are registered before Run. Each scenario is repeated; a self-test race in harness code proves the detector is live. " +
 			"distinct_nontrivial = distinct (scenario, repetition, GOMAXPROCS) executions that created concurrent gldap goroutines",
 		Assume: []string{"the race detector generalises each observed execution to every execution with the same synchronisation structure, and says nothing about code the workloads did not run",
 			"getter results are only len()-inspected by the harness: deep reads of shared entries after a getter are the caller's business"},
@@ -43,7 +43,7 @@ func init() {
 			}
 			return ps
 		},
-		MinObserved: []string{"scenario_executions", "S5_set_calls", "S5_client_ops", "fan_out_handler_rounds", "rounds_of_requests_after_failed_writes", "fresh_servers_whose_first_requests_were_unrouted", "repetitions_with_debug_level_loggers"},
+		MinObserved: []string{"scenario_executions", "S5_set_calls", "S5_client_ops", "fan_out_handler_rounds", "rounds_of_requests_after_failed_writes", "fresh_servers_whose_first_requests_were_unrouted", "repetitions_with_debug_level_loggers", "starttls_upgrades_with_a_shared_config_that_sets_an_old_minimum_version"},
 	})
 }
 
@@ -277,32 +277,53 @@ func c15UnroutedFirst(c *Ctx, round int) {
 // c15StartTLSThenStop: connections are upgraded with StartTLS and then the server is stopped WITHOUT any traffic over
 // the upgraded session (socket I/O after the upgrade would order the upgrade before Stop and hide a race between them).
 func c15StartTLSThenStop(c *Ctx, pki *PKI, round int) {
+	// the handler hands the same *tls.Config to every upgrade; in even rounds it is one that spells out an old minimum
+	// protocol version (an application's business)
+	shared := pki.ServerOnly
+	if round%2 == 0 {
+		shared = pki.ServerOnly.Clone()
+		shared.MinVersion = []uint16{tls.VersionTLS10, tls.VersionTLS11}[(round/2)%2]
+	}
 	srv, err := startSrv(SrvCfg{}, func(m *gldap.Mux) {
 		m.ExtendedOperation(func(w *gldap.ResponseWriter, r *gldap.Request) {
 			w.Write(r.NewExtendedResponse(gldap.WithResponseCode(0)))
-			r.StartTLS(pki.ServerOnly)
+			if r.StartTLS(shared) == nil && shared != pki.ServerOnly {
+				c.Count("starttls_upgrades_with_a_shared_config_that_sets_an_old_minimum_version", 1)
+			}
 		}, gldap.ExtendedOperationStartTLS)
 	})
 	if err != nil {
 		c.Inconclusive("server start: " + err.Error())
 		return
 	}
+	// all connections ask for the upgrade at the same moment (the requests go out before any answer is read): socket
+	// I/O orders nothing between the upgrades of different connections then
 	var conns []net.Conn
-	for i := 0; i < 1+round%3; i++ {
+	for i := 0; i < 2+round%3; i++ {
 		cn, err := net.Dial("tcp", srv.Addr)
 		if err != nil {
 			continue
 		}
 		conns = append(conns, cn)
-		cn.Write(sber.Message(1, sber.ExtendedRequest([]byte(sber.OIDStartTLS), nil, false), nil).Encode())
-		if _, err := wrapClient(cn).ReadMsg(patience); err != nil {
-			continue
-		}
-		tc := tls.Client(cn, pki.ClientPlain)
-		cn.SetDeadline(time.Now().Add(patience))
-		tc.Handshake()
-		cn.SetDeadline(time.Time{})
 	}
+	for _, cn := range conns {
+		cn.Write(sber.Message(1, sber.ExtendedRequest([]byte(sber.OIDStartTLS), nil, false), nil).Encode())
+	}
+	var hs sync.WaitGroup
+	for _, cn := range conns {
+		hs.Add(1)
+		go func(cn net.Conn) {
+			defer hs.Done()
+			if _, err := wrapClient(cn).ReadMsg(patience); err != nil {
+				return
+			}
+			tc := tls.Client(cn, pki.ClientPlain)
+			cn.SetDeadline(time.Now().Add(patience))
+			tc.Handshake()
+			cn.SetDeadline(time.Time{})
+		}(cn)
+	}
+	hs.Wait()
 	if round%2 == 1 {
 		time.Sleep(50 * time.Millisecond)
 	}
